@@ -640,14 +640,74 @@ pub struct GenOpts {
     pub max_blocks: usize,
 }
 
-pub fn gen_block_j(rng: &mut StdRng, keys: &Keys, pool: &mut Pool, index: usize, o: &GenOpts) -> Value {
-    let nf = rng.gen_range(0..6);
-    let mut facts: Vec<Value> = (0..nf).map(|_| pred_j(&gen_fact(rng), pool)).collect();
-    if rng.gen_range(0..4) == 0 {
-        for k in 0..rng.gen_range(2..5) {
-            facts.push(pred_j(&Predicate { name: "p0".into(), terms: vec![Term::Integer(k), Term::Integer(k + 1)] }, pool));
+/// a query that matches the given fact: some of its terms replaced by variables
+pub fn query_from_fact(rng: &mut StdRng, f: &Predicate) -> Rule {
+    let terms: Vec<Term> = f
+        .terms
+        .iter()
+        .enumerate()
+        .map(|(i, t)| if rng.gen_range(0..3) > 0 { Term::Variable(format!("m{i}")) } else { t.clone() })
+        .collect();
+    Rule::new(
+        Predicate { name: "query".to_string(), terms: vec![] },
+        vec![Predicate { name: f.name.clone(), terms }],
+        vec![],
+        vec![],
+    )
+}
+
+/// a check that the facts in `known` (visible by default) satisfy, most of the time
+pub fn gen_check_sat(rng: &mut StdRng, keys: &Keys, known: &[Predicate]) -> Check {
+    if known.is_empty() || rng.gen_range(0..6) == 0 {
+        return gen_check(rng, keys, 0);
+    }
+    match rng.gen_range(0..6) {
+        0 => {
+            // reject if <something absent>
+            let q = Rule::new(
+                Predicate { name: "query".into(), terms: vec![] },
+                vec![Predicate { name: "absent".into(), terms: vec![Term::Variable("m0".into())] }],
+                vec![],
+                vec![],
+            );
+            let mut queries = vec![q];
+            if rng.gen() {
+                queries.push(Rule::new(
+                    Predicate { name: "query".into(), terms: vec![] },
+                    vec![Predicate { name: "p2".into(), terms: vec![Term::Integer(99)] }],
+                    vec![],
+                    vec![],
+                ));
+            }
+            Check { kind: CheckKind::Reject, queries }
+        }
+        1 => Check { kind: CheckKind::All, queries: vec![{ let f = pick(rng, known).clone(); query_from_fact(rng, &f) }] },
+        _ => {
+            let mut queries = vec![];
+            if rng.gen_range(0..3) == 0 {
+                queries.push(gen_query(rng, keys, 0, 5));
+            }
+            let f = pick(rng, known).clone();
+            queries.push(query_from_fact(rng, &f));
+            Check { kind: CheckKind::One, queries }
         }
     }
+}
+
+pub fn gen_block_j(rng: &mut StdRng, keys: &Keys, pool: &mut Pool, index: usize, o: &GenOpts, authority: &mut Vec<Predicate>) -> Value {
+    let nf = rng.gen_range(0..6);
+    let mut bfacts: Vec<Predicate> = (0..nf).map(|_| gen_fact(rng)).collect();
+    if rng.gen_range(0..4) == 0 {
+        for k in 0..rng.gen_range(2..5) {
+            bfacts.push(Predicate { name: "p0".into(), terms: vec![Term::Integer(k), Term::Integer(k + 1)] });
+        }
+    }
+    let facts: Vec<Value> = bfacts.iter().map(|f| pred_j(f, pool)).collect();
+    if index == 0 {
+        authority.extend(bfacts.iter().cloned());
+    }
+    let mut known = authority.clone();
+    known.extend(bfacts.iter().cloned());
     let nr = rng.gen_range(0..3);
     let mut rules: Vec<Value> = (0..nr).map(|_| rule_j(&gen_rule(rng, keys, o.err_rate, 5), pool, keys)).collect();
     if rng.gen_range(0..5) == 0 {
@@ -656,25 +716,41 @@ pub fn gen_block_j(rng: &mut StdRng, keys: &Keys, pool: &mut Pool, index: usize,
         rules.push(rule_j(&Rule::new(p0(v("x"), v("z")), vec![p0(v("x"), v("y")), p0(v("y"), v("z"))], vec![], gen_scopes(rng, keys, 3)), pool, keys));
     }
     let nc = rng.gen_range(0..3);
-    let checks: Vec<Value> = (0..nc).map(|_| check_j(&gen_check(rng, keys, o.err_rate), pool, keys)).collect();
+    let checks: Vec<Value> = (0..nc)
+        .map(|_| {
+            let c = if o.err_rate == 0 && rng.gen_range(0..4) > 0 { gen_check_sat(rng, keys, &known) } else { gen_check(rng, keys, o.err_rate) };
+            check_j(&c, pool, keys)
+        })
+        .collect();
     let sc: Vec<Value> = gen_scopes(rng, keys, 5).iter().map(|s| scope_j(s, keys)).collect();
     let ext = if index > 0 && rng.gen_range(0..3) == 0 { json!(rng.gen_range(0..3)) } else { Value::Null };
     json!({"facts": facts, "rules": rules, "checks": checks, "sc": sc, "ext": ext})
 }
 
-pub fn gen_az_j(rng: &mut StdRng, keys: &Keys, pool: &mut Pool, o: &GenOpts) -> Value {
+pub fn gen_az_j(rng: &mut StdRng, keys: &Keys, pool: &mut Pool, o: &GenOpts, authority: &[Predicate]) -> Value {
     let nf = rng.gen_range(0..5);
-    let facts: Vec<Value> = (0..nf).map(|_| pred_j(&gen_fact(rng), pool)).collect();
+    let afacts: Vec<Predicate> = (0..nf).map(|_| gen_fact(rng)).collect();
+    let facts: Vec<Value> = afacts.iter().map(|f| pred_j(f, pool)).collect();
+    let mut known = authority.to_vec();
+    known.extend(afacts.iter().cloned());
     let nr = rng.gen_range(0..3);
     let rules: Vec<Value> = (0..nr).map(|_| rule_j(&gen_rule(rng, keys, o.err_rate, 4), pool, keys)).collect();
     let nc = rng.gen_range(0..3);
-    let checks: Vec<Value> = (0..nc).map(|_| check_j(&gen_check(rng, keys, o.err_rate), pool, keys)).collect();
+    let checks: Vec<Value> = (0..nc)
+        .map(|_| {
+            let c = if o.err_rate == 0 && rng.gen_range(0..4) > 0 { gen_check_sat(rng, keys, &known) } else { gen_check(rng, keys, o.err_rate) };
+            check_j(&c, pool, keys)
+        })
+        .collect();
     let np = rng.gen_range(0..4);
     let mut policies: Vec<Value> = (0..np)
         .map(|_| {
             let kind = if rng.gen_range(0..3) == 0 { PolicyKind::Deny } else { PolicyKind::Allow };
             let n = *pick(rng, &[1usize, 1, 2]);
-            policy_j(&Policy { kind, queries: (0..n).map(|_| gen_query(rng, keys, o.err_rate, 4)).collect() }, pool, keys)
+            let queries = (0..n)
+                .map(|_| if !known.is_empty() && rng.gen_range(0..3) == 0 { let f = pick(rng, &known).clone(); query_from_fact(rng, &f) } else { gen_query(rng, keys, o.err_rate, 4) })
+                .collect();
+            policy_j(&Policy { kind, queries }, pool, keys)
         })
         .collect();
     if rng.gen_range(0..3) > 0 {
